@@ -5,6 +5,7 @@ import (
 	"math/big"
 
 	"verifharness/ghost"
+	"verifharness/stubs"
 	"verifharness/sym"
 
 	"github.com/blinklabs-io/gouroboros/ledger/allegra"
@@ -22,6 +23,18 @@ var Registry = map[string]func(){
 	"TxSize":      TxSize,
 	"FeeRule":     FeeRule,
 	"MaxSizeRule": MaxSizeRule,
+	"InRuleList":  InRuleList,
+}
+
+// InRuleList: the fee and max-size rules are members of the era's rule list.
+func InRuleList() {
+	lists := [][]common.UtxoValidationRuleFunc{shelley.UtxoValidationRules, allegra.UtxoValidationRules, mary.UtxoValidationRules,
+		alonzo.UtxoValidationRules, babbage.UtxoValidationRules, conway.UtxoValidationRules, dijkstra.UtxoValidationRules}
+	era := sym.Param("era")
+	r := eras()[era]
+	sym.Reach("decided")
+	sym.Assert(stubs.InList(lists[era], r.fee), "fee rule is in the era's rule list")
+	sym.Assert(stubs.InList(lists[era], r.maxSize), "max-size rule is in the era's rule list")
 }
 
 // MinFee: CalculateMinFee(size,a,b) == a*size+b for all inputs, overflow reported, never wrapped.
